@@ -42,6 +42,7 @@ def compose(ctx):
         if not ok:
             return
         crules = cfg_rules(ctx, c)
+        crules_cache = {}
         out_alph = sorted({ab[tape] for (_, ab, _) in F.arcs if ab[tape] != EPS})
         for y in [tuple(s) for s in P["strings"]]:
             if any(t not in out_alph for t in y):
@@ -67,6 +68,18 @@ def compose(ctx):
             okr, got = ctx.ref(f"oracle on the composed grammar {y}", O.string_weight, crules, set(c.V), c.S, y, num, piv2)
             if okr:
                 ctx.eq_terms(f"({order})({y}) = sum_x G(x) T(x,y)", got, ref, hyps=[ctx.gt0(p) for p in piv + piv2], sig=f"{order}:{P['shape']}:{P['fst']}:{''.join(map(str, y))}")
+            # a further operation on the composed grammar: truncation keeps exactly the strings within the bound
+            for tn in P.get("truncate_after", []):
+                if (tn, "built") not in crules_cache:
+                    okt, tg = ctx.call(f"({order}).truncate_length({tn})", c.truncate_length, tn, sig=f"{order}:truncate_after:exception")
+                    crules_cache[tn, "built"] = (okt, cfg_rules(ctx, tg) if okt else None, tg if okt else None)
+                okt, trules, tg = crules_cache[tn, "built"]
+                if okt:
+                    p3 = []
+                    okr3, got3 = ctx.ref("oracle truncated", O.string_weight, trules, set(tg.V), tg.S, y, num, p3)
+                    if okr3:
+                        ctx.eq_terms(f"({order}).truncate_length({tn})({y})", got3, ref if len(y) <= tn else num.zero, hyps=[ctx.gt0(p) for p in piv + p3],
+                                     sig=f"{order}:truncate_after:{P['shape']}:{P['fst']}:{''.join(map(str, y))}")
             if P.get("call") and len(y) <= 1:
                 okc, v = ctx.call(f"({order})({y}) real call", c, y, sig=f"{order}:call:exception")
                 if okc:
@@ -138,7 +151,7 @@ def jobs(tier, seed):
         ys = [list(s) for s in all_strings(outs, 2 if quick else 3)]
         af = list(range(len(F.arcs), F.K))
         bits = [0, 1, 2] if sk.K + len(F.arcs) >= 10 else [0, 1]
-        out += split_job(dict(case="compose", params=dict(shape=sh, fst=fn, strings=ys, always_f=af, order="cfg@fst", call=True)), bits)
+        out += split_job(dict(case="compose", params=dict(shape=sh, fst=fn, strings=ys, always_f=af, order="cfg@fst", call=True, truncate_after=[2] if sh in ("G-FIN", "G-S1") else [])), bits)
     # grammar on the output side: fst @ cfg  (transducers whose OUTPUT alphabet is the grammar's {a, b})
     # T-F*.T would do, but the real code itself transposes; we use the catalogue machines read backwards
     for sh, fn in ([("G-FIN", "T-R1")] if quick else [("G-FIN", "T-R1"), ("G-NU", "T-R1"), ("G-S1", "T-R1")]):
